@@ -169,11 +169,13 @@ def check_dag(dag, script, funcs, freg, rec, wit, starts):
         return None
     rec.count("inference_succeeded")
     stored_names = set()
-    seen = set()
+    seen = {}
     for name, pstate in starts:
-        if name in seen:
+        # every phase from up to 3 of the states in which it starts (values change kind-relevantly
+        # across steps, e.g. a persistent variable that turns complex in the second step)
+        if seen.get(name, 0) >= 3:
             continue
-        seen.add(name)
+        seen[name] = seen.get(name, 0) + 1
         drv = backends.StepDriver(dag, script, funcs, phase_name=name, persist_override=pstate)
         order = backends.program_order(drv.phase)
         # (i) every assigned variable has a kind
@@ -269,6 +271,33 @@ def op_is_elem_write(ops, name):
                     op[4] is not None and op_is_elem_write(op[4], name)):
                 return True
     return False
+
+
+def gen_chain(rng):
+    """Loop-carried widening: a persistent variable starts real and is fed back complex through a chain of
+    temporaries, so that inference needs several sweeps (script form, two phases)."""
+    k = rng.randint(2, 4)
+    body = []
+    prev = "<p>x"
+    names = [f"c{i}" for i in range(k)]
+    for i, n in enumerate(names):
+        e = rng.choice([["+", ["var", prev], ["num", 1.5]], ["*", ["num", 2], ["var", prev]],
+                        ["-", ["var", prev], ["var", "<dt>"]], ["/", ["var", prev], ["num", 2]],
+                        ["**", ["var", prev], ["num", 2]]])
+        body.append(["assign", n, None, e, [], 0])
+        prev = n
+    wid = rng.choice([["*", ["var", prev], ["cnum", 0.0, 1.0]], ["+", ["var", prev], ["cnum", 0.0, 2.0]]])
+    body.append(["assign", "<p>x", None, wid, [], 0])
+    extra = [["assign", "<state>s", None, ["+", ["var", "<state>s"], ["var", "<dt>"]], [], 0],
+             ["assign", "q", None, ["*", ["var", "<dt>"], ["num", 3]], [], 0]]
+    for op in extra:
+        body.insert(rng.randint(0, len(body)), op)
+    init = [["assign", "<p>x", None, ["num", rng.choice([1.0, 0.5, 2])], [], 0],
+            ["assign", "<state>s", None, ["num", 1.5], [], 0]]
+    return {"phases": [{"name": "init", "next": "step", "body": init},
+                       {"name": "step", "next": "step", "body": body}],
+            "initial": "init", "state": {"s": 1.5}, "t0": 0.0, "dt0": 0.5, "funcs": {},
+            "run": {"max_steps": 4}, "event_cap": 40}
 
 
 def check_program(script, rec):
@@ -443,7 +472,12 @@ def run_shard(shard, rec):
         return
     rng = random.Random(shard["seed"])
     for _ in range(shard["count"]):
-        if shard["kind"] == "prog":
+        if shard["kind"] == "prog" and rng.random() < 0.15:
+            script = gen_chain(rng)
+            n = check_program(script, rec)
+            rec.count("widening_chain_programs")
+            rec.case(script, nontrivial=bool(n) and n >= 3)
+        elif shard["kind"] == "prog":
             # (kind inference has no rule for conditional expressions: mostly left out)
             script = add_complex(prog.Gen(rng, profile="py", ifexpr=rng.random() < 0.15).script(), rng)
             if rng.random() < 0.75:
